@@ -42,8 +42,11 @@ def sharded(d="W", shards=2, cap=100000):
     return {"kind": "sharded", "dir": "@TOP@/" + d, "shards": shards, "cap": cap}
 
 
-def stack(writer=None, readers=(), checker="none", auto_sync=True):
-    c = {"kind": "stack", "readers": list(readers), "checker": checker, "auto_sync": auto_sync}
+def stack(writer=None, readers=(), checker="none", auto_sync=None):
+    """auto_sync=None leaves the library's default (documented: on) in place."""
+    c = {"kind": "stack", "readers": list(readers), "checker": checker}
+    if auto_sync is not None:
+        c["auto_sync"] = auto_sync
     if writer:
         c["writer"] = writer
     return c
